@@ -27,7 +27,8 @@ from .env.s3 import FakeS3, FakeClient, FaultPlan
 from .env.fs import FaultyOSUtils, ScratchDir, SourceStream, SinkStream
 from .env.subs import RecSub
 
-assert os.path.realpath(s3transfer.__file__).startswith('/repo/'), s3transfer.__file__
+_REPO = os.environ.get('VERIF_REPO') or '/repo'
+assert os.path.realpath(s3transfer.__file__).startswith(os.path.realpath(_REPO) + '/'), s3transfer.__file__
 
 _PATCHED = [s3transfer.futures, s3transfer.utils, s3transfer.download,
             s3transfer.manager, s3transfer.bandwidth]
@@ -80,6 +81,17 @@ def set_adjuster(adj):
         f = functools.partial(_RealAdjuster, **adj)
         s3transfer.upload.ChunksizeAdjuster = f
         s3transfer.copies.ChunksizeAdjuster = f
+
+
+_RealAgg = s3transfer.upload.AggregatedProgressCallback
+
+
+def set_progress_threshold(thr):
+    """Scale the 256 KiB progress aggregation threshold for tiny bodies."""
+    if thr is None:
+        s3transfer.upload.AggregatedProgressCallback = _RealAgg
+    else:
+        s3transfer.upload.AggregatedProgressCallback = functools.partial(_RealAgg, threshold=thr)
 
 
 SHARED_FIELDS = {
@@ -182,6 +194,7 @@ def build_manager(w):
         w.s3.put(BUCKET, key, payload(size, seed, salt=len(key)))
     cfg = TransferConfig(**scn.get('config', {}))
     set_adjuster(scn.get('adjuster'))
+    set_progress_threshold(scn.get('progress_threshold'))
     if sched.inline:
         ex = NonThreadedExecutor
     else:
@@ -281,9 +294,10 @@ def collect(w, idx):
         r = fut.result()
         w.outcomes[idx] = ('ok', r)
         sched.emit('user.result', idx=idx, outcome='ok')
-    except KeyboardInterrupt as e:
-        w.outcomes[idx] = ('kbd', e)
-        sched.emit('user.result', idx=idx, outcome='KeyboardInterrupt')
+    except KeyboardInterrupt:
+        # Ctrl-C while waiting: not the transfer's outcome (collected after shutdown)
+        w.user_events.append(('kbd', idx))
+        sched.emit('user.kbd_at_result', idx=idx)
         raise
     except AbortExecution:
         raise
@@ -362,6 +376,7 @@ def user_script(w):
         sched.emit('user.shutdown_returned')
     else:
         raise ValueError(script)
+    sched.emit('user.done_flags', flags=[f.done() for f in w.futures])
     # after shutdown nothing blocks: gather the outcomes not collected yet
     for i in range(len(w.futures)):
         if i not in w.outcomes:
@@ -455,6 +470,7 @@ def run_scenario(scn, prefix=(), scratch=None, record_points=False, on_point=Non
     finally:
         set_shared_fields(False)
         set_adjuster(None)
+        set_progress_threshold(None)
         if own:
             w.final_listing = scratch.listing()
             scratch.cleanup()
